@@ -1,22 +1,64 @@
 import ElvModel.Go.Driver
 import ElvModel.C21.Model
+import ElvModel.C21.Show
+import ElvModel.C21.Spec
 namespace C21
 open Go
 
-/-! Line protocol: `run <decls> <tokens>` → `<outcome>|<final values>|<log>`.
+/-! Line protocol:
+
+  `run <decls> <tokens>`               → `<outcome>|<final values>|<log>` (the model's run)
+  `acc <decls> <tokens> <that text>`   → `accept` / `reject` (the acceptor of Spec.lean on a given log)
+
 See harness/c21/prog.go for the token grammar. -/
 
 structure Decl where
   kind : Kind
-  isList : Bool
   init : Option Val
   mask : Nat
 
-def parseVal (isList : Bool) (s : String) : Option Val :=
-  if isList then
-    if s = "e" then some (.list [])
-    else ((s.splitOn ".").mapM String.toNat?).map Val.list
-  else s.toNat?.map .num
+def strV (s : String) : Val := .str (strBytes s)
+
+def takeNat : List String → Option (Nat × List String)
+  | t :: ts => t.toNat?.map (·, ts)
+  | [] => none
+
+def takeN {α : Type} (p : List String → Option (α × List String)) :
+    Nat → List String → Option (List α × List String)
+  | 0, ts => some ([], ts)
+  | n + 1, ts => do
+    let (x, ts) ← p ts
+    let (r, ts) ← takeN p n ts
+    pure (x :: r, ts)
+
+def takeStr : List String → Option (String × List String)
+  | t :: ts => some (t, ts)
+  | [] => none
+
+/-- A value: `n <str>` | `l <m> <str>…` | `L <m> <val>…` | `m <m> (<key> <val>)…` (fuel = nesting). -/
+def parseVal : Nat → List String → Option (Val × List String)
+  | 0, _ => none
+  | _ + 1, "n" :: t :: ts => some (strV t, ts)
+  | _ + 1, "l" :: ts => do
+    let (m, ts) ← takeNat ts
+    let (xs, ts) ← takeN takeStr m ts
+    pure (.list (xs.map strV), ts)
+  | f + 1, "L" :: ts => do
+    let (m, ts) ← takeNat ts
+    let (xs, ts) ← takeN (parseVal f) m ts
+    pure (.list xs, ts)
+  | f + 1, "m" :: ts => do
+    let (m, ts) ← takeNat ts
+    let (kvs, ts) ← takeN (fun ts => do
+      let (k, ts) ← takeStr ts
+      let (v, ts) ← parseVal f ts
+      pure ((C14.Key.str (strBytes k), v), ts)) m ts
+    -- later entries win, as in a map literal
+    pure (.map (kvs.foldl (fun acc e => C14.mapAssoc acc e.1 e.2) []), ts)
+  | _, _ => none
+
+def parseOldList (s : String) : Val :=
+  if s = "e" then .list [] else .list ((s.splitOn ".").map strV)
 
 def parseDecl (s : String) : Option Decl :=
   match s.splitOn ":" with
@@ -24,65 +66,61 @@ def parseDecl (s : String) : Option Decl :=
     let kind ← match k with
       | "L" => some Kind.logged | "U" => some Kind.ulogged
       | "E" => some Kind.env | "O" => some Kind.ord | _ => none
-    let isList := t = "l"
-    let init ← if i = "-" then some none else (parseVal isList i).map some
+    let init ← if i = "-" then some none else
+      match t with
+      | "s" => some (some (strV i))
+      | "l" => some (some (parseOldList i))
+      | "x" =>
+        let ts := i.splitOn "/"
+        match parseVal (ts.length + 1) ts with
+        | some (v, []) => some (some v)
+        | _ => none
+      | _ => none
     let mask ← m.toNat?
     -- only unsettable variables can start unset; environment variables hold strings
     if init.isNone && (kind == .logged || kind == .ord) then none
-    else if isList && kind == .env then none
-    else some ⟨kind, isList, init, mask⟩
+    else if kind == .env && (match init with | some (.str _) => false | none => false | _ => true) then none
+    else some ⟨kind, init, mask⟩
   | _ => none
 
-def takeNat : List String → Option (Nat × List String)
-  | t :: ts => t.toNat?.map (·, ts)
-  | [] => none
+def keyOf (s : String) : Key := .str (strBytes s)
 
-def parseLVs : Nat → List String → Option (List LV × List String)
-  | 0, ts => some ([], ts)
-  | n + 1, "v" :: ts => do
+/-- One lvalue: `v x` | `e x i` | `i x n k…` (n ≥ 1). -/
+def parseLV : List String → Option (LV × List String)
+  | "v" :: ts => do
     let (x, ts) ← takeNat ts
-    let (r, ts) ← parseLVs n ts
-    pure (.var x :: r, ts)
-  | n + 1, "e" :: ts => do
+    pure (.var x, ts)
+  | "e" :: ts => do
     let (x, ts) ← takeNat ts
-    let (i, ts) ← takeNat ts
-    let (r, ts) ← parseLVs n ts
-    pure (.elem x i :: r, ts)
-  | _, _ => none
+    let (i, ts) ← takeStr ts
+    pure (.elem x (keyOf i) [], ts)
+  | "i" :: ts => do
+    let (x, ts) ← takeNat ts
+    let (n, ts) ← takeNat ts
+    let (ks, ts) ← takeN takeStr n ts
+    match ks with
+    | k :: rest => pure (.elem x (keyOf k) (rest.map keyOf), ts)
+    | [] => none
+  | _ => none
 
-def parseNats : Nat → List String → Option (List Nat × List String)
-  | 0, ts => some ([], ts)
-  | n + 1, ts => do
-    let (x, ts) ← takeNat ts
-    let (r, ts) ← parseNats n ts
-    pure (x :: r, ts)
+/-- n lvalues, at most one of them marked `@` (the rest lvalue); `pos` = index of the next one. -/
+def parseLVs : Nat → Nat → List String → Option ((List LV × Option Nat) × List String)
+  | 0, _, ts => some (([], none), ts)
+  | n + 1, pos, "@" :: ts => do
+    let (l, ts) ← parseLV ts
+    let ((r, rest), ts) ← parseLVs n (pos + 1) ts
+    if rest.isSome then none else pure ((l :: r, some pos), ts)
+  | n + 1, pos, ts => do
+    let (l, ts) ← parseLV ts
+    let ((r, rest), ts) ← parseLVs n (pos + 1) ts
+    pure ((l :: r, rest), ts)
 
-def parseVals : Nat → List String → Option (List Val × List String)
-  | 0, ts => some ([], ts)
-  | n + 1, "n" :: ts => do
-    let (x, ts) ← takeNat ts
-    let (r, ts) ← parseVals n ts
-    pure (.num x :: r, ts)
-  | n + 1, "l" :: ts => do
-    let (m, ts) ← takeNat ts
-    let (xs, ts) ← parseNats m ts
-    let (r, ts) ← parseVals n ts
-    pure (.list xs :: r, ts)
-  | _, _ => none
-
-def parseGroup (ts : List String) : Option ((List LV × List Val) × List String) := do
+def parseGroup (f : Nat) (ts : List String) : Option (Group × List String) := do
   let (n, ts) ← takeNat ts
-  let (lvs, ts) ← parseLVs n ts
+  let ((lvs, rest), ts) ← parseLVs n 0 ts
   let (m, ts) ← takeNat ts
-  let (vs, ts) ← parseVals m ts
-  pure ((lvs, vs), ts)
-
-def parseGroups : Nat → List String → Option (List (List LV × List Val) × List String)
-  | 0, ts => some ([], ts)
-  | n + 1, ts => do
-    let (g, ts) ← parseGroup ts
-    let (r, ts) ← parseGroups n ts
-    pure (g :: r, ts)
+  let (vs, ts) ← takeN (parseVal f) m ts
+  pure (⟨lvs, rest, vs⟩, ts)
 
 /-- `n` statements (fuel bounds the nesting + length; tokens + 1 is enough). -/
 def parseStmts : Nat → Nat → List String → Option (List Stmt × List String)
@@ -104,13 +142,13 @@ def parseStmts : Nat → Nat → List String → Option (List Stmt × List Strin
       | "A" =>
         match ts with
         | m :: ts => do
-          let ((lvs, vs), ts) ← parseGroup ts
-          if m = "t" then pure (Stmt.asg k true lvs vs, ts)
-          else if m = "s" then pure (Stmt.asg k false lvs vs, ts) else none
+          let (g, ts) ← parseGroup f ts
+          if m = "t" then pure (Stmt.asg k true g, ts)
+          else if m = "s" then pure (Stmt.asg k false g, ts) else none
         | [] => none
       | "W" => do
         let (ng, ts) ← takeNat ts
-        let (gs, ts) ← parseGroups ng ts
+        let (gs, ts) ← takeN (parseGroup f) ng ts
         let (nb, ts) ← takeNat ts
         let (body, ts) ← parseStmts f nb ts
         pure (Stmt.withS k gs body, ts)
@@ -132,49 +170,65 @@ def parseStmts : Nat → Nat → List String → Option (List Stmt × List Strin
         let (nb, ts) ← takeNat ts
         let (body, ts) ← parseStmts f nb ts
         pure (Stmt.forS k x body, ts)
+      | "I" => do
+        let (x, ts) ← takeNat ts
+        let (nb, ts) ← takeNat ts
+        let (body, ts) ← parseStmts f nb ts
+        pure (Stmt.ifS k x body, ts)
+      | "H" => do
+        let (x, ts) ← takeNat ts
+        let (nb, ts) ← takeNat ts
+        let (body, ts) ← parseStmts f nb ts
+        pure (Stmt.whileS k x body, ts)
       | _ => none)
     let (rest, ts) ← parseStmts f n ts
     pure (st :: rest, ts)
   | _, _, [] => none
 
-/-! Typing of programs (mirrors `wellTyped` of the harness): scalars to scalar
-variables, lists to list variables, element assignment only on list variables
-with scalar values.  Keeps string-splicing `vals.Assoc` out of the model. -/
+/-! Well-formedness of programs (mirrors `wellTyped` of the harness): variables
+are declared; an environment variable is only assigned as a whole, with a
+string, and is not a rest lvalue (`envVariable.Set` refuses other values —
+not modelled); a rest position is one of the lvalues. -/
 
 def declAt (ds : List Decl) (x : Nat) : Option Decl := ds[x]?
 
-def groupOk (ds : List Decl) (g : List LV × List Val) : Bool :=
-  g.1.all (fun l => match l, declAt ds l.head with
-    | .var _, some _ => true
-    | .elem _ _, some d => d.isList
-    | _, none => false) &&
-  (g.1.length != g.2.length ||
-    (g.1.zip g.2).all (fun (l, v) => match l, v, declAt ds l.head with
-      | .elem _ _, .num _, _ => true
-      | .elem _ _, .list _, _ => false
-      | .var _, .num _, some d => !d.isList
-      | .var _, .list _, some d => d.isList
-      | _, _, none => false))
+def isEnv (ds : List Decl) (x : Nat) : Bool :=
+  match declAt ds x with
+  | some d => d.kind == .env
+  | none => false
+
+def groupOk (ds : List Decl) (g : Group) : Bool :=
+  g.lvs.all (fun l => (declAt ds l.head).isSome) &&
+  (match g.rest with
+    | some r => r < g.lvs.length
+    | none => true) &&
+  g.lvs.all (fun l => !isEnv ds l.head ||
+    (match l with
+      | .var _ => true
+      | .elem _ _ _ => false)) &&
+  (match g.rest with
+    | some r => (g.lvs.drop r).head?.all (fun l => !isEnv ds l.head)
+    | none => true) &&
+  (match restValues g.lvs.length g.rest g.vs with
+    | none => true
+    | some vs => (g.lvs.zip vs).all (fun p => !isEnv ds p.1.head ||
+        (match p.2 with
+          | .str _ => true
+          | _ => false)))
 
 def stmtsOk (ds : List Decl) : Nat → List Stmt → Bool
   | 0, _ => false
   | f + 1, ss => ss.all fun
     | .peek _ x => (declAt ds x).isSome
-    | .asg _ _ lvs vs => groupOk ds (lvs, vs)
+    | .asg _ _ g => groupOk ds g
     | .withS _ gs body => gs.all (groupOk ds) && stmtsOk ds f body
-    | .deferS _ body | .call _ _ body | .forS _ _ body | .tryS _ body => stmtsOk ds f body
+    | .deferS _ body | .call _ _ body | .forS _ _ body | .tryS _ body
+    | .ifS _ _ body | .whileS _ _ body => stmtsOk ds f body
     | _ => true
 
 /-! Rendering -/
 
-def showVal : Val → String
-  | .num n => toString n
-  | .list [] => "e"
-  | .list xs => ".".intercalate (xs.map toString)
-
-def showSlot : Option Val → String
-  | none => "-"
-  | some v => showVal v
+def bytesStr (b : Bytes) : String := String.ofList (b.map fun u => Char.ofNat u.toNat)
 
 def showOutcome : Outcome → String
   | none => "ok"
@@ -190,11 +244,11 @@ def showOutcome : Outcome → String
   | some .fuel => "FUEL"
   | some .panic => "PANIC"
 
-def showEvent : Event → String
+def showSEv : SEv → String
   | .enter g k => s!"E{g}.{k}"
   | .at g k => s!"@{g}.{k}"
-  | .val x s => s!"V{x}={showSlot s}"
-  | .set x v ok => s!"S{x}={showVal v}{if ok then "+" else "!"}"
+  | .val x t => s!"V{x}={bytesStr t}"
+  | .set x t ok => s!"S{x}={bytesStr t}{if ok then "+" else "!"}"
   | .unset x ok => s!"X{x}{if ok then "+" else "!"}"
   | .caught g k o => s!"C{g}.{k}:{showOutcome o}"
 
@@ -212,27 +266,111 @@ def mkSt (ds : List Decl) : St :=
       | none => none
     cnt := fun _ => 0, next := 0, oof := false }
 
+/-- The model's run of a program: `main` is block 0, made by `fn`; the fuel is
+the nesting depth of the program + 1 (sufficient: `C21_driver_fuel_sufficient`). -/
+def runModel (ds : List Decl) (body : List Stmt) : R :=
+  callBlock (mkCfg ds) (depthL body + 1) ⟨0, body⟩ true (mkSt ds)
+
+/-! Reading a log back (for `acc`) -/
+
+def parseOutcome (s : String) : Option Outcome :=
+  match s.splitOn ":" with
+  | ["ok"] => some none
+  | ["break"] => some (some .brk)
+  | ["continue"] => some (some .cont)
+  | ["return"] => some (some .ret)
+  | ["elemerr"] => some (some .elemErr)
+  | ["arity"] => some (some .arity)
+  | ["fail", n] => n.toNat?.map fun n => some (.fail n)
+  | ["setfail", n] => n.toNat?.map fun n => some (.setFail n)
+  | ["restorefail", n] => n.toNat?.map fun n => some (.restoreFail n)
+  | ["unsetfail", n] => n.toNat?.map fun n => some (.unsetFail n)
+  | _ => none
+
+def ofChars (cs : List Char) : String := String.ofList cs
+
+def parseTwo (cs : List Char) : Option (Nat × Nat) :=
+  match (ofChars cs).splitOn "." with
+  | [g, k] => do
+    let g ← g.toNat?
+    let k ← k.toNat?
+    pure (g, k)
+  | _ => none
+
+/-- `<x>=<text>` -/
+def parseEq (cs : List Char) : Option (Nat × List Char) :=
+  let x := cs.takeWhile (· ≠ '=')
+  match cs.dropWhile (· ≠ '=') with
+  | _ :: t => (ofChars x).toNat?.map (·, t)
+  | [] => none
+
+def parseOk : Char → Option Bool
+  | '+' => some true
+  | '!' => some false
+  | _ => none
+
+def parseSEv (t : String) : Option SEv :=
+  match t.toList with
+  | 'E' :: cs => (parseTwo cs).map fun p => .enter p.1 p.2
+  | '@' :: cs => (parseTwo cs).map fun p => .at p.1 p.2
+  | 'V' :: cs => (parseEq cs).map fun p => .val p.1 (strBytes (ofChars p.2))
+  | 'S' :: cs => do
+    let (x, t) ← parseEq cs
+    let last ← t.getLast?
+    let ok ← parseOk last
+    pure (.set x (strBytes (ofChars t.dropLast)) ok)
+  | 'X' :: cs => do
+    let last ← cs.getLast?
+    let ok ← parseOk last
+    let x ← (ofChars cs.dropLast).toNat?
+    pure (.unset x ok)
+  | 'C' :: cs =>
+    let gk := cs.takeWhile (· ≠ ':')
+    match cs.dropWhile (· ≠ ':') with
+    | _ :: o => do
+      let (g, k) ← parseTwo gk
+      let o ← parseOutcome (ofChars o)
+      pure (.caught g k o)
+    | [] => none
+  | _ => none
+
+def parseProg (decls toks : String) : Option (List Decl × List Stmt) :=
+  match (decls.splitOn ",").mapM parseDecl with
+  | none => none
+  | some ds =>
+    let ts := (toks.splitOn " ").filter (· ≠ "")
+    let fuel := ts.length + 2
+    match takeNat ts with
+    | none => none
+    | some (n, ts') =>
+      match parseStmts fuel n ts' with
+      | some (body, []) => if stmtsOk ds fuel body then some (ds, body) else none
+      | _ => none
+
 def stepLine : List String → String
   | ["run", decls, toks] =>
-    match (decls.splitOn ",").mapM parseDecl with
+    match parseProg decls toks with
     | none => "bad-op"
-    | some ds =>
-      let ts := (toks.splitOn " ").filter (· ≠ "")
-      let fuel := ts.length + 2
-      match takeNat ts with
-      | none => "bad-op"
-      | some (n, ts') =>
-        match parseStmts fuel n ts' with
-        | some (body, []) =>
-          if !stmtsOk ds fuel body then "bad-op"
-          else
-            let r := callBlock (mkCfg ds) fuel ⟨0, body⟩ true (mkSt ds)
-            if r.st.oof then "FUEL"
-            else
-              let fin := ",".intercalate ((List.range ds.length).map fun x => showSlot (r.st.store x))
-              let lg := if r.ev.isEmpty then "-" else " ".intercalate (r.ev.map showEvent)
-              s!"{showOutcome r.out}|{fin}|{lg}"
-        | _ => "bad-op"
+    | some (ds, body) =>
+      let r := runModel ds body
+      if r.st.oof then "FUEL"
+      else
+        let fin := ",".intercalate ((List.range ds.length).map fun x => bytesStr (showSlot (r.st.store x)))
+        let lg := if r.ev.isEmpty then "-" else " ".intercalate (r.ev.map fun e => showSEv e.toS)
+        s!"{showOutcome r.out}|{fin}|{lg}"
+  | ["acc", decls, toks, text] =>
+    match parseProg decls toks with
+    | none => "bad-op"
+    | some (ds, body) =>
+      match text.splitOn "|" with
+      | [o, fin, lg] =>
+        let evs := if lg = "-" then some [] else ((lg.splitOn " ").filter (· ≠ "")).mapM parseSEv
+        match parseOutcome o, evs with
+        | some out, some evs =>
+          if accepts (mkCfg ds).kind (depthL body + 1) body (mkSt ds).store ds.length out
+              ((fin.splitOn ",").map strBytes) evs then "accept" else "reject"
+        | _, _ => "reject"
+      | _ => "reject"
   | _ => "bad-op"
 
 def driver : Driver := Driver.pure stepLine
